@@ -93,6 +93,12 @@ pub fn check_string(s: &String, stats: &mut Stats) -> CheckResult {
     if s.len() < 4 {
         stats.label("short");
     }
+    if s.len() > 64 {
+        stats.label("longer-than-64-bytes");
+        if !s.is_char_boundary(64) || (s.len() > 128 && !s.is_char_boundary(128)) || (s.len() > 256 && !s.is_char_boundary(256)) {
+            stats.label("multi-byte-char-across-byte-64/128/256");
+        }
+    }
     if boundary && exp.is_none() {
         stats.label("rejected-body");
     }
@@ -243,9 +249,20 @@ fn string_strategy() -> BoxedStrategy<String> {
             }
             t.into_iter().collect::<String>()
         });
+    // long text (the quantifier says: every length): an ASCII or digit filler of 0-300 bytes after the prefix, with a
+    // multi-byte character at a generated byte offset (so that it straddles offsets such as 32, 64, 128, 255, 256)
+    let long = (
+        prop_oneof![3 => Just("HP:".to_string()), 1 => Just("ab€".to_string()), 1 => Just("".to_string())],
+        prop_oneof![4 => 55usize..=70, 2 => 120usize..=135, 2 => 250usize..=262, 2 => 0usize..=300],
+        prop_oneof![Just('0'), Just('7'), Just('a'), Just(' ')],
+        proptest::sample::select(vec!["é", "€", "😀", "", "9", "\u{feff}"]),
+        "[0-9a-z ]{0,8}",
+    )
+        .prop_map(|(p, n, fill, mid, tail)| format!("{p}{}{mid}{tail}", std::iter::repeat(fill).take(n).collect::<String>()));
     prop_oneof![
         8 => (prefix, body).prop_map(|(p, b)| format!("{p}{b}")),
         2 => edited,
+        1 => long,
         1 => any_chars,
         1 => "\\PC{0,14}",
         1 => "[ -~]{0,14}",
@@ -258,7 +275,7 @@ impl Property for C20 {
         "C20"
     }
     fn rule(&self) -> String {
-        "Enumerated (exhaustive sub-sweep, both tiers): every id 0..10^7 plus 10^7..10^7+10^4, powers of two and the u32 borders: to_string == 'HP:'+7-digit zero padding, try_from(to_string) == id, from(to_be_bytes) == id, from_u32/as_u32/to_usize/From<u32>/From<u64>/From<usize>/From<u16> agree, From<String>, == &str, Debug and Display through placeholders with precision / width / alignment / fill / sign flags (the rendering stays 'HP:' + 7 digits) on every 64th id. Generated: strings = prefix pool (HP:, hp:, short, multi-byte prefixes whose 3rd byte lies inside a character) x body pool (digits, leading zeros, +/-, spaces, overflow 4294967295/6, non-ASCII digits, random unicode, one control / white-space / separator / exponent character at any position of a number, trailing CR/LF), structural edits of acceptable text (a slice, half of the time the prefix, repeated / copied to the end / moved / removed / reversed: 'HP:HP:5', 'HP:5HP:5') plus arbitrary strings of any chars; oracle = hand-written reference parser (>=4 bytes, byte 3 on a char boundary, rest matches +?[0-9]+ and <= u32::MAX); never panics; Gene/Omim/OrphaId::try_from checked with the same grammar on the whole string. evaluations = ids enumerated + strings checked. Non-trivial = string is not the canonical rendering of an id; distinct by string.".into()
+        "Enumerated (exhaustive sub-sweep, both tiers): every id 0..10^7 plus 10^7..10^7+10^4, powers of two and the u32 borders: to_string == 'HP:'+7-digit zero padding, try_from(to_string) == id, from(to_be_bytes) == id, from_u32/as_u32/to_usize/From<u32>/From<u64>/From<usize>/From<u16> agree, From<String>, == &str, Debug and Display through placeholders with precision / width / alignment / fill / sign flags (the rendering stays 'HP:' + 7 digits) on every 64th id. Generated: strings = prefix pool (HP:, hp:, short, multi-byte prefixes whose 3rd byte lies inside a character) x body pool (digits, leading zeros, +/-, spaces, overflow 4294967295/6, non-ASCII digits, random unicode, one control / white-space / separator / exponent character at any position of a number, trailing CR/LF), structural edits of acceptable text (a slice, half of the time the prefix, repeated / copied to the end / moved / removed / reversed: 'HP:HP:5', 'HP:5HP:5') long text of up to 300 bytes with a multi-byte character at a generated offset (across bytes 64 / 128 / 256), plus arbitrary strings of any chars; oracle = hand-written reference parser (>=4 bytes, byte 3 on a char boundary, rest matches +?[0-9]+ and <= u32::MAX); never panics; Gene/Omim/OrphaId::try_from checked with the same grammar on the whole string. evaluations = ids enumerated + strings checked. Non-trivial = string is not the canonical rendering of an id; distinct by string.".into()
     }
     fn assumptions(&self) -> Vec<String> {
         vec!["'parsable to u32' is Rust's grammar: optional '+', ASCII digits, value <= u32::MAX".into()]
@@ -270,7 +287,7 @@ impl Property for C20 {
         }
     }
     fn required_labels(&self, _tier: Tier) -> Vec<&'static str> {
-        vec!["byte3-inside-char", "non-ascii", "parses", "short", "rejected-body", "digits-with-control-or-space"]
+        vec!["byte3-inside-char", "non-ascii", "parses", "short", "rejected-body", "digits-with-control-or-space", "longer-than-64-bytes", "multi-byte-char-across-byte-64/128/256"]
     }
     fn run_generated(&self, _tier: Tier, seed: u64, n: u64, stats: &mut Stats) -> Option<(Value, Failure)> {
         run_typed(string_strategy(), seed, n, stats, check_string)
